@@ -14,6 +14,8 @@ pub enum N {
     Block(String, Vec<N>),
     Super,
     Filter(Vec<N>),
+    /// `{% set zcN %}…{% endset %}{{ zcN | safe }}`: a capture printed right away (identity)
+    Capture(usize, Vec<N>),
 }
 
 pub fn render_nodes(ns: &[N], out: &mut String) {
@@ -30,6 +32,11 @@ pub fn render_nodes(ns: &[N], out: &mut String) {
                 out.push_str("{% filter upper %}");
                 render_nodes(ch, out);
                 out.push_str("{% endfilter %}");
+            }
+            N::Capture(id, ch) => {
+                out.push_str(&format!("{{% set zc{} %}}", id));
+                render_nodes(ch, out);
+                out.push_str(&format!("{{% endset %}}{{{{ zc{} | safe }}}}", id));
             }
         }
     }
@@ -72,8 +79,17 @@ pub fn parse_tpl(src: &str) -> Option<ITpl> {
 fn parse_nodes(mut s: &str) -> Option<(Vec<N>, &str)> {
     let mut out = Vec::new();
     loop {
-        if s.is_empty() || s.starts_with("{% endblock %}") || s.starts_with("{% endfilter %}") {
+        if s.is_empty() || s.starts_with("{% endblock %}") || s.starts_with("{% endfilter %}") || s.starts_with("{% endset %}") {
             return Some((out, s));
+        }
+        if let Some(r) = s.strip_prefix("{% set zc") {
+            let end = r.find(" %}")?;
+            let id: usize = r[..end].parse().ok()?;
+            let (ch, tail) = parse_nodes(&r[end + 3..])?;
+            let close = format!("{{% endset %}}{{{{ zc{} | safe }}}}", id);
+            s = tail.strip_prefix(close.as_str())?;
+            out.push(N::Capture(id, ch));
+            continue;
         }
         if let Some(r) = s.strip_prefix("{% block ") {
             let end = r.find(" %}")?;
@@ -114,7 +130,7 @@ fn collect_defs<'a>(ns: &'a [N], out: &mut BTreeMap<String, &'a Vec<N>>) {
                 out.insert(b.clone(), ch);
                 collect_defs(ch, out);
             }
-            N::Filter(ch) => collect_defs(ch, out),
+            N::Filter(ch) | N::Capture(_, ch) => collect_defs(ch, out),
             _ => {}
         }
     }
@@ -157,6 +173,11 @@ impl<'a> Expander<'a> {
                     let mut inner = String::new();
                     self.expand(ch, cur, &mut inner)?;
                     out.push_str(&inner.to_uppercase());
+                }
+                N::Capture(_, ch) => {
+                    let mut inner = String::new();
+                    self.expand(ch, cur, &mut inner)?;
+                    out.push_str(&inner);
                 }
                 N::Block(b, _) => {
                     let lin = self.lineage(b);
@@ -341,7 +362,7 @@ fn block_inside_filter(im: &InheritModel, entry: &str, b: &str) -> bool {
                         return true;
                     }
                 }
-                N::Filter(ch) => {
+                N::Filter(ch) | N::Capture(_, ch) => {
                     if walk(ch, b, true) {
                         return true;
                     }
@@ -393,7 +414,12 @@ impl<'a> IGen<'a> {
                 }
                 6 if depth < self.max_depth => {
                     let ch = self.nodes(depth + 1, used, pool, in_block, super_rate, allow_blocks);
-                    out.push(N::Filter(ch));
+                    if self.rng.chance(1, 3) {
+                        self.marker += 1;
+                        out.push(N::Capture(self.marker, ch));
+                    } else {
+                        out.push(N::Filter(ch));
+                    }
                 }
                 7 | 8 if in_block && self.rng.chance(super_rate.0, super_rate.1) => out.push(N::Super),
                 _ => out.push(self.text()),
@@ -607,6 +633,11 @@ pub fn shape_hash(m: &Model) -> Option<(u64, bool)> {
                     f.u64(5);
                     shape(ch, f);
                     f.u64(6);
+                }
+                N::Capture(_, ch) => {
+                    f.u64(7);
+                    shape(ch, f);
+                    f.u64(8);
                 }
             }
         }
